@@ -18,6 +18,7 @@ import (
 func init() {
 	register("tokens", opTokens)
 	register("compile", opCompile)
+	register("runafter", opRunAfter)
 }
 
 // tokens <cps>  →  ok (T:<type>:<start>:<end>:<literal>:<nlines> | E:<code>:<cursor>)* | (L:<indents>:<start>)*
@@ -85,4 +86,27 @@ func opCompile(f []string) string {
 		return errField(err) + " | " + displayInfo(p, err)
 	}
 	return "ok " + dumpProgram(prog)
+}
+
+// runafter <a-cps> <b-cps>  →  the outcome of program b run on an Interpreter object that has run program a before
+// (whatever a was: valid, rejected, longer, shorter) — compiling b is a function of b's text alone
+func opRunAfter(f []string) string {
+	it := exec.NewInterpreter("verif").SetExternalLibs(stdLibs())
+	func() {
+		defer func() {
+			if r := recover(); r != nil {
+				restoreStdout()
+			}
+		}()
+		captureStdout()
+		it.LoadScript(parseCps(f[0])).Execute(nil)
+		finishCapture()
+	}()
+	captureStdout()
+	res, err := it.LoadScript(parseCps(f[1])).Execute(nil)
+	tr := finishCapture()
+	if err != nil {
+		return canonErr(err) + " | " + traceField(tr)
+	}
+	return "ok " + canon(res, 0) + " | " + traceField(tr)
 }
